@@ -158,47 +158,31 @@ theorem rejected_mock_changes_nothing (s s' : St) (hr : Reachable s) (b v : Nat)
 example : (step Cfg.fixed (St.init (fun _ => sortMeths ["b", "Zed"]) (fun _ => 0) (fun _ => .val 0) (fun _ => [0, 0, 0]))
     (.mock 0 1 "b" .ap 7)).map (·.2) = some (.panic "applyerr") := by decide
 
-/-- Reset puts back the saved words — special case kept for reference (builder whose interface mocks all belong to one
-    variable's context `c`); the general statement is `reset_restores_all` / `reset_any_order` below: after
-    `b.Reset()` the variable saved in the context holds exactly the saved words again if any mock had been applied, no
-    other variable changes, and the context is canceled (so the next `Interface(&v)` starts a fresh context). -/
-theorem reset_restores_words (s s' : St) (b c v : Nat) (w : Words)
-    (hone : ∀ i ∈ mmsOf s b, (s.mms i).ctx = c) (hb : (s.ctxs c).backup = some (v, w))
-    (hs : step Cfg.fixed s (.reset b) = some (s', .ok)) :
-    ((∃ i ∈ mmsOf s b, (s.mms i).hasGuard = true) → s'.vars v = w ∧ (s'.ctxs c).canceled = true)
-    ∧ (∀ u, u ≠ v → s'.vars u = s.vars u) := by
-  simp only [step, resetStep] at hs
-  cases hq : cancelMMs s (mmsOf s b) with
-  | none => simp [hq] at hs
-  | some s1 =>
-    simp only [hq, Option.map_some, Option.some.injEq, Prod.mk.injEq, and_true] at hs
-    subst hs
-    obtain ⟨g1, g2, _⟩ := cancelMMs_single c v w _ s s1 hone hb hq
-    constructor
-    · intro ⟨i, hi, hg⟩
-      have hany : (mmsOf s b).any (fun i => (s.mms i).hasGuard) = true := List.any_eq_true.mpr ⟨i, hi, hg⟩
-      rw [g1, hany]
-      exact ⟨by simp, g2 hany⟩
-    · intro u hu
-      rw [g1]
-      split
-      · exact upd_other _ _ _ _ hu
-      · rfl
-
 /-- satisfiable and non-trivial: a variable holding implementation 5, two methods mocked (Apply and Return), Reset -/
 example : (run Cfg.fixed (St.init (fun _ => sortMeths ["B", "A"]) (fun _ => 0) (fun _ => .val 5) (fun _ => [0, 0, 0]))
     [.mock 0 0 "A" .ap 0, .mock 0 0 "B" .rt 0, .reset 0]).map (fun s => (s.vars 0, (s.ctxs 0).canceled)) = some (.val 5, true) := by decide
 
-/-- (function-level restatement of `cancelMM`) **Cancel through one method's handle restores the whole variable**: `Method(m).Cancel()` on a method mocker that was
-    applied (has a guard) writes the saved words back, cancels the *shared* context (so the next `Interface(&v)` starts a
-    fresh mocker and context, for every method) and touches no other variable; on a mocker that was never applied it
-    changes no variable at all. -/
+/-- (function-level restatement of `cancelMM`) **Cancel through one method's handle restores the whole variable — once**:
+    `Method(m).Cancel()` on a method mocker that was applied (has a guard) and whose context has not put the variable back
+    yet writes the saved words back and cancels the *shared* context (so the next `Interface(&v)` starts a fresh mocker and
+    context, for every method); on a mocker that was never applied, or whose context already restored the variable
+    (`cancel_after_restore_keeps_value`), it changes no variable at all. -/
 theorem cancel_one_method_restores_variable (s s' : St) (i v : Nat) (w : Words)
     (hb : (s.ctxs (s.mms i).ctx).backup = some (v, w)) (hs : cancelMM s i = some s') :
-    s'.vars = (if (s.mms i).hasGuard then upd s.vars v w else s.vars)
-    ∧ ((s.mms i).hasGuard = true → (s'.ctxs (s.mms i).ctx).canceled = true) := by
-  obtain ⟨_, _, h3, h4, _⟩ := cancelMM_single s s' i _ v w rfl hb hs
-  exact ⟨h3, h4⟩
+    ((s.mms i).hasGuard = true → (s.ctxs (s.mms i).ctx).restored = false → s'.vars = upd s.vars v w)
+    ∧ ((s.mms i).hasGuard = true → (s'.ctxs (s.mms i).ctx).canceled = true)
+    ∧ ((s.mms i).hasGuard = false → s'.vars = s.vars) := by
+  obtain ⟨_, _, _, _, _, _, h4, h5, h6⟩ := cancelMM_gen s s' i hs
+  refine ⟨fun hg hr => ?_, h5, fun hg => h4 (Or.inl hg)⟩
+  obtain ⟨v', w', e, hv⟩ := h6 hg hr
+  rw [hb] at e; cases e; exact hv
+
+/-- **a Cancel of an already restored context leaves every variable alone** (repaired behaviour, commit 1956238): once a
+    context has put its variable back (`restored`), cancelling any of its method mockers again — a second `Reset`, a
+    `Method(m).Cancel()` after a `Reset` — changes no variable, whatever the test assigned in the meantime. -/
+theorem cancel_after_restore_keeps_value (s s' : St) (i : Nat) (hr : (s.ctxs (s.mms i).ctx).restored = true)
+    (hs : cancelMM s i = some s') : s'.vars = s.vars :=
+  (cancelMM_gen s s' i hs).2.2.2.2.2.2.1 (Or.inr hr)
 
 example : (run Cfg.fixed (St.init (fun _ => sortMeths ["B", "A"]) (fun _ => 0) (fun _ => .val 5) (fun _ => [0, 0, 0]))
     [.mock 0 0 "A" .ap 0, .mock 0 0 "B" .rt 0, .cancelM 0 0 "A", .mock 0 0 "B" .rt 0]).map
@@ -269,7 +253,7 @@ theorem reachable_inv2 {s : St} (h : Reachable s) : Inv2 Cfg.fixed s := by
   exact inv2_run Cfg.fixed ops _ s (inv_init Cfg.fixed types vtyp vars0 sigs hv) (inv2_init Cfg.fixed types vtyp vars0 sigs) hapi hr
 
 /-- variable `v` is mocked through builder `b`, with saved words `w`: one of the builder's interface method mockers has a
-    guard (a mock was applied through it) and its context backed up `v` holding `w` -/
+    guard (a mock was applied through it), its context backed up `v` holding `w` and has not put `v` back yet -/
 def MockedThrough (s : St) (b v : Nat) (w : Words) : Prop := Binds s (mmsOf s b) v w
 
 /-- the saved words of a variable are unique within a builder (whatever number of variables, of equal or different
@@ -290,8 +274,8 @@ theorem saved_words_unique (s : St) (hr : Reachable s) (b v : Nat) (w w' : Words
     rw [hc] at hb
     have hv := hI.m p.2 hj v w hb
     rw [hJ.k rfl b p hp, ← hv]
-  obtain ⟨i, hi, _, hb⟩ := h1
-  obtain ⟨i', hi', _, hb'⟩ := h2
+  obtain ⟨i, hi, _, _, hb⟩ := h1
+  obtain ⟨i', hi', _, _, hb'⟩ := h2
   obtain ⟨p, hp, c1, k1⟩ := key i w hi hb
   obtain ⟨p', hp', c2, k2⟩ := key i' w' hi' hb'
   have e := hJ.n b p p' hp hp' (by rw [k1, k2])
@@ -309,7 +293,8 @@ theorem saved_words_unique (s : St) (hr : Reachable s) (b v : Nat) (w w' : Words
 theorem reset_any_order (s : St) (hr : Reachable s) (b : Nat) (l : List Nat) (hl : ∀ i, i ∈ l ↔ i ∈ mmsOf s b) :
     ∃ s', cancelMMs s l = some s'
       ∧ (∀ v w, MockedThrough s b v w → s'.vars v = w)
-      ∧ (∀ i ∈ mmsOf s b, (s.mms i).hasGuard = true → (s'.ctxs (s.mms i).ctx).canceled = true)
+      ∧ (∀ i ∈ mmsOf s b, (s.mms i).hasGuard = true →
+            (s'.ctxs (s.mms i).ctx).canceled = true ∧ (s'.ctxs (s.mms i).ctx).restored = true)
       ∧ (∀ u, (¬ ∃ w, MockedThrough s b u w) → s'.vars u = s.vars u) := by
   have hJ := reachable_inv2 hr
   have hb : ∀ u w, Binds s l u w ↔ MockedThrough s b u w := by
@@ -317,7 +302,7 @@ theorem reset_any_order (s : St) (hr : Reachable s) (b : Nat) (l : List Nat) (hl
     constructor
     · rintro ⟨i, hi, h⟩; exact ⟨i, (hl i).mp hi, h⟩
     · rintro ⟨i, hi, h⟩; exact ⟨i, (hl i).mpr hi, h⟩
-  obtain ⟨s', h0, _, _, _, h4, h5, h6⟩ := cancelMMs_gen l s (fun i _ hg => (hJ.g i hg).2)
+  obtain ⟨s', h0, _, _, _, _, _, _, h4, h5, h6⟩ := cancelMMs_gen l s (fun i _ hg => (hJ.g i hg).2)
   refine ⟨s', h0, ?_, ?_, ?_⟩
   · intro v w hm
     exact h5 v w ((hb v w).mpr hm) (fun w' hw' => saved_words_unique s hr b v w' w ((hb v w').mp hw') hm)
@@ -335,7 +320,8 @@ theorem reset_total (s : St) (hr : Reachable s) (b : Nat) : ∃ s', step Cfg.fix
 /-- **Reset restores every variable of the builder** (the statement for the model's own iteration order) -/
 theorem reset_restores_all (s s' : St) (hr : Reachable s) (b : Nat) (hs : step Cfg.fixed s (.reset b) = some (s', .ok)) :
     (∀ v w, MockedThrough s b v w → s'.vars v = w)
-    ∧ (∀ i ∈ mmsOf s b, (s.mms i).hasGuard = true → (s'.ctxs (s.mms i).ctx).canceled = true)
+    ∧ (∀ i ∈ mmsOf s b, (s.mms i).hasGuard = true →
+          (s'.ctxs (s.mms i).ctx).canceled = true ∧ (s'.ctxs (s.mms i).ctx).restored = true)
     ∧ (∀ u, (¬ ∃ w, MockedThrough s b u w) → s'.vars u = s.vars u) := by
   obtain ⟨s'', h0, h1⟩ := reset_any_order s hr b (mmsOf s b) (fun _ => Iff.rfl)
   simp only [step, resetStep, h0, Option.map_some, Option.some.injEq, Prod.mk.injEq, and_true] at hs
@@ -494,6 +480,13 @@ theorem mockOn_frame (cfg : Cfg) (s1 s' : St) (j : Nat) (m : String) (kind : Kin
       simp only [hq, Option.map_some, Option.some.injEq, Prod.mk.injEq, and_true] at hs
       subst hs; exact fin _ s3 _ hq
 
+theorem proxyInterface_rearms (cfg : Cfg) (s s' : St) (v t c : Nat) (m : String) (k : Nat) (cb : Cb)
+    (hs : proxyInterface cfg s v t c m k cb = some s') : (s'.ctxs c).restored = false := by
+  simp only [proxyInterface] at hs
+  split at hs
+  · cases hs
+  · split at hs <;> (cases hs; simp)
+
 /-- after a successful mock the builder's cached mocker for `v` exists, its context is live and `v` holds its fake -/
 theorem mock_establishes_live (s s' : St) (hr : Reachable s) (b v : Nat) (m : String) (kind : Kind) (csig : Nat)
     (hs : step Cfg.fixed s (.mock b v m kind csig) = some (s', .ok)) :
@@ -621,7 +614,8 @@ example : (runOk Cfg.fixed (St.init (fun _ => sortMeths ["B", "A"]) (fun _ => 0)
 theorem first_mock_backs_up_current_value (s s' : St) (hr : Reachable s) (b v : Nat) (m : String) (kind : Kind) (csig : Nat)
     (hfirst : ∀ j, lookup (bkey Cfg.fixed s v) (s.blds b).mockers = some j → (s.ctxs (s.cms j).ctx).canceled = true)
     (hs : step Cfg.fixed s (.mock b v m kind csig) = some (s', .ok)) :
-    ∃ f, s'.vars v = .fake f s.nctx ∧ (s'.ctxs s.nctx).backup = some (v, s.vars v) ∧ (s'.ctxs s.nctx).canceled = false := by
+    ∃ f, s'.vars v = .fake f s.nctx ∧ (s'.ctxs s.nctx).backup = some (v, s.vars v) ∧ (s'.ctxs s.nctx).canceled = false
+      ∧ (s'.ctxs s.nctx).restored = false := by
   have hI := reachable_inv hr
   have hI0 := inv_ncb Cfg.fixed s (s.ncb + 1) hI
   have hfresh : interfaceOf Cfg.fixed { s with ncb := s.ncb + 1 } b v = freshCM Cfg.fixed { s with ncb := s.ncb + 1 } b v := by
@@ -639,19 +633,63 @@ theorem first_mock_backs_up_current_value (s s' : St) (hr : Reachable s) (b v : 
     mockOn_ok Cfg.fixed _ s' s.ncm m kind _ s.ncb hI1 hs
   simp only [upd_same] at g3 g4 g5
   have hbk := backup_only_first_time Cfg.fixed s2 s3 _ _ _ m _ _ hp
+  have hre := proxyInterface_rearms Cfg.fixed s2 s3 _ _ _ m _ _ hp
   obtain ⟨p1, p2, p3, p4⟩ := proxyInterface_frame Cfg.fixed s2 s3 _ _ _ m _ _ hp
   have hcn : (s2.ctxs (s2.cms s.ncm).ctx).canceled = false := by rw [g2, g3]; simp
   obtain ⟨f', g, o1, o2, o3, o4, o5, o6, o7⟩ := proxyInterface_out Cfg.fixed s2 s3 _ _ _ m _ _ hcn hp
   rw [g3, g4] at hbk o1
-  rw [g3] at p4 hcn
+  rw [g3] at p4 hcn hre
   have hb0 : (s2.ctxs s.nctx).backup = none := by rw [g2]; simp
   rw [hb0, g6] at hbk
   subst he
-  exact ⟨f', by simp only; rw [o1]; exact upd_same _ _ _, by simp only; exact hbk, by simp only; rw [p4]; exact hcn⟩
+  exact ⟨f', by simp only; rw [o1]; exact upd_same _ _ _, by simp only; exact hbk, by simp only; rw [p4]; exact hcn,
+    by simp only; exact hre⟩
 
 /-- non-vacuous: second round after a Reset and an assignment backs up the assigned value -/
 example : (run Cfg.fixed (St.init (fun _ => sortMeths ["B", "A"]) (fun _ => 0) (fun _ => .val 0) (fun _ => [0, 0]))
     [.mock 0 0 "A" .ap 0, .reset 0, .assign 0 5, .mock 0 0 "B" .rt 0, .reset 0]).map (fun s => s.vars 0) = some (.val 5) := by
+  decide
+
+/-- **a second Reset keeps what the test assigned** (trace-level, repaired behaviour): from ANY reachable state, `b.Reset()`,
+    then the test assigns `v`, then `b.Reset()` again (explicit plus deferred Reset, or the next table case that does not
+    mock `v`): `v` still holds the assigned value — every context of `b` has already put its variable back, so the second
+    Reset restores nothing. -/
+theorem second_reset_keeps_assigned_value (s s1 s2 s3 : St) (hr : Reachable s) (b v x : Nat)
+    (h1 : step Cfg.fixed s (.reset b) = some (s1, .ok)) (h2 : step Cfg.fixed s1 (.assign v x) = some (s2, .ok))
+    (h3 : step Cfg.fixed s2 (.reset b) = some (s3, .ok)) : s3.vars v = .val x := by
+  have hr1 : Reachable s1 := reachable_step hr rfl h1
+  have hr2 : Reachable s2 := reachable_step hr1 rfl h2
+  -- facts about the first Reset
+  have hJ := reachable_inv2 hr
+  obtain ⟨t1, e0, _, a2, _, _, aB, aC, _, _, a6⟩ := cancelMMs_gen (mmsOf s b) s (fun i _ hg => (hJ.g i hg).2)
+  simp only [step, resetStep, e0, Option.map_some, Option.some.injEq, Prod.mk.injEq, and_true] at h1
+  subst h1
+  simp only [step, Option.some.injEq, Prod.mk.injEq, and_true] at h2
+  subst h2
+  have hmm : mmsOf { t1 with vars := upd t1.vars v (.val x) } b = mmsOf s b := by
+    simp only [mmsOf]; rw [aB, aC]
+  obtain ⟨_, _, h⟩ := reset_restores_all _ s3 hr2 b h3
+  have hno : ¬ ∃ w, MockedThrough { t1 with vars := upd t1.vars v (.val x) } b v w := by
+    rintro ⟨w, i, hi, hg, hrs, _⟩
+    rw [hmm] at hi
+    simp only at hg hrs
+    have hg0 : (s.mms i).hasGuard = true := by rw [← (a2 i).2]; exact hg
+    have := (a6 i hi hg0).2
+    rw [(a2 i).1, this] at hrs
+    cases hrs
+  rw [h v hno]
+  exact upd_same _ _ _
+
+/-- non-vacuous: two mocked methods, Reset, assign implementation 7, Reset again -/
+example : (run Cfg.fixed (St.init (fun _ => sortMeths ["B", "A"]) (fun _ => 0) (fun _ => .val 0) (fun _ => [0, 0]))
+    [.mock 0 0 "A" .ap 0, .mock 0 0 "B" .rt 0, .reset 0, .assign 0 7, .reset 0]).map (fun s => s.vars 0) = some (.val 7) := by
+  decide
+
+/-- per-method Cancel after a Reset likewise keeps the assigned value, and a value assigned between rounds is what the next
+    round backs up and its Reset restores -/
+example : (run Cfg.fixed (St.init (fun _ => sortMeths ["B", "A"]) (fun _ => 0) (fun _ => .val 0) (fun _ => [0, 0]))
+    [.mock 0 0 "A" .ap 0, .reset 0, .assign 0 7, .cancelM 0 0 "A", .mock 0 0 "B" .rt 0, .assign 0 3, .reset 0, .reset 0]).map
+      (fun s => s.vars 0) = some (.val 7) := by
   decide
 
 end C07
